@@ -386,7 +386,7 @@ func (c *Cache) GnmiUpdate(n *pb.Notification) error {
 func (t *Target) GnmiUpdate(n *pb.Notification) error {
 	updateTS := false
 	if u := n.GetUpdate(); len(u) > 0 {
-		if p := u[0].GetPath().GetElem(); len(p) > 0 && p[0].GetName() != metadata.Root {
+		if first, ok := firstPathElem(n.GetPrefix(), u[0].GetPath()); ok && first != metadata.Root {
 			// Record latest timestamp from the device, excluding all 'meta' paths.
 			defer func(ts int64) {
 				if updateTS {
@@ -477,6 +477,23 @@ func (t *Target) GnmiUpdate(n *pb.Notification) error {
 		t.meta.AddInt(metadata.EmptyCount, 1)
 	}
 	return nil
+}
+
+// firstPathElem returns the first element of the index path formed by prefix
+// and path (origin included, target excluded), in either path encoding.
+func firstPathElem(prefix, p *pb.Path) (string, bool) {
+	if o := prefix.GetOrigin(); o != "" {
+		return o, true
+	}
+	for _, x := range []*pb.Path{prefix, p} {
+		if e := x.GetElem(); len(e) > 0 {
+			return e[0].GetName(), true
+		}
+		if e := x.GetElement(); len(e) > 0 {
+			return e[0], true
+		}
+	}
+	return "", false
 }
 
 func (t *Target) checkTimestamp(ts time.Time) {
